@@ -5,12 +5,13 @@ From NurbsV Require Import Base.Res Base.QList Spec.KnotSpec Spec.BSpline Spec.B
 Import ListNotations.
 
 (* (U, degree reported by the implementation, P, W, nodes,
-    implementation: scalar call per node, implementation: one sequence call) *)
+    implementation: scalar call per node; a shuffled sequence of in-range nodes and the
+    implementation's single call on it; the single call on all nodes (outside ones included)) *)
 Definition case := (list Q * nat * list pt * option (list Q) * list Q
-                    * list (res pt) * res (list pt))%type.
+                    * list (res pt) * list Q * res (list pt) * res (list pt))%type.
 
 Definition check_case (c : case) : verdict :=
-  let '(U, p, P, W, nodes, iscal, iseq) := c in
+  let '(U, p, P, W, nodes, iscal, seqnodes, iseq, iseq_all) := c in
   let d := pdim P in
   let spec u := match W with
                 | None => curve_x U p d P u
@@ -22,8 +23,10 @@ Definition check_case (c : case) : verdict :=
     Nat.eqb (length iscal) (length nodes) &&
     allb (map2 (fun u r => if inr u then res_eqb pt_eqb r (Ok (spec u))
                            else is_err ValueError r) nodes iscal) &&
-    (if forallb inr nodes then res_eqb ptl_eqb iseq (Ok (map spec nodes))
-     else is_err ValueError iseq) in
+    (if forallb inr seqnodes then res_eqb ptl_eqb iseq (Ok (map spec seqnodes))
+     else is_err ValueError iseq) &&
+    (if forallb inr nodes then res_eqb ptl_eqb iseq_all (Ok (map spec nodes))
+     else is_err ValueError iseq_all) in
   match make U None with
   | Err _ => mkv false prop
   | Ok k =>
@@ -31,6 +34,7 @@ Definition check_case (c : case) : verdict :=
       let corr :=
         Nat.eqb (kdeg k) p &&
         list_eqb (res_eqb pt_eqb) (map (curve_eval1 cv) nodes) iscal &&
-        res_eqb ptl_eqb (curve_eval cv nodes) iseq in
+        res_eqb ptl_eqb (curve_eval cv seqnodes) iseq &&
+        res_eqb ptl_eqb (curve_eval cv nodes) iseq_all in
       mkv corr prop
   end.
